@@ -261,6 +261,9 @@ class StorageRunner:
     def begin(self, t, **kw):
         self.storage.tpc_begin(t, **kw)
 
+    def finish(self, t, f=None):
+        return self.storage.tpc_finish(t, f) if f else self.storage.tpc_finish(t)
+
     def do_txn(self, meta, recs, end):
         from ZODB.FileStorage.FileStorage import FileStorageError
         from ZODB.POSException import ConflictError, POSKeyError, UndoError
@@ -381,7 +384,7 @@ class StorageRunner:
             self.labels.add('abort-after-vote')
             return
         got = []
-        tid = s.tpc_finish(t, lambda tid: got.append(tid))
+        tid = self.finish(t, lambda tid: got.append(tid))
         if got != [tid]:
             self.fail('tpc_finish', 'callback', 'callback got %r, returned %r' % (got, tid))
         if not (isinstance(tid, bytes) and len(tid) == 8 and tid > before_last):
@@ -441,7 +444,7 @@ class StorageRunner:
             seen.add(oid)
             written.append((oid, data))
         s.tpc_vote(t)
-        got = s.tpc_finish(t)
+        got = self.finish(t)
         if got != tid:
             self.fail('tpc_finish', 'explicit-tid', 'began with %r finished with %r' % (tid, got))
         self.oids.extend(new_oids)
